@@ -103,33 +103,47 @@ void harness_structure(void)
 	VP_WITNESS("transform");
 }
 
-/* S4: padding, length encoding, block cutting, output byte order */
+/* S4: padding, length encoding, block cutting, output byte order.
+ * Calls of SHA1Transform are replaced (goto-instrument --replace-calls) by a recorder that logs the block
+ * and returns an arbitrary new chaining value (the compression function itself is S1-S3): builtin_SHA1 must
+ * feed exactly the FIPS-padded message blocks, starting from the FIPS initial value, always into the same
+ * chaining state, and output the final chaining value big-endian. */
 #ifndef VP_LEN_LO
 #define VP_LEN_LO 0
 #endif
 #ifndef VP_LEN_HI
 #define VP_LEN_HI 8
 #endif
-static void ref_sha1_driver(const unsigned char *msg, size_t len, unsigned char out[20])
+#ifndef VP_LEN
+#define VP_LEN 0
+#endif
+static unsigned char vp_blk[3][64]; static int vp_nblk; static uint32_t vp_iv_seen[5]; static uint32_t vp_last_state[5]; static uint32_t *vp_state_ptr; static int vp_state_moved;
+void vp_rec_transform(uint32_t state[5], const unsigned char buffer[64])
 {
-	uint32_t H[5] = { 0x67452301u, 0xEFCDAB89u, 0x98BADCFEu, 0x10325476u, 0xC3D2E1F0u };
-	unsigned char pad[192]; size_t total, i; uint64_t bits = (uint64_t)len * 8;
+	int i;
+	if (vp_nblk == 0) { for (i = 0; i < 5; i++) vp_iv_seen[i] = state[i]; vp_state_ptr = state; }
+	else { if (state != vp_state_ptr) vp_state_moved = 1; for (i = 0; i < 5; i++) if (state[i] != vp_last_state[i]) vp_state_moved = 1; }
+	if (vp_nblk < 3) for (i = 0; i < 64; i++) vp_blk[vp_nblk][i] = buffer[i];
+	vp_nblk++;
+	for (i = 0; i < 5; i++) state[i] = vp_last_state[i] = vp_u32();
+}
+void harness_driver(void)
+{
+	unsigned char msg[VP_LEN_HI + 1], d1[20], pad[192]; size_t len = VP_LEN, total, i; uint64_t bits = (uint64_t)len * 8;
+	static const uint32_t IV[5] = { 0x67452301u, 0xEFCDAB89u, 0x98BADCFEu, 0x10325476u, 0xC3D2E1F0u };
+	vp_bytes(msg, VP_LEN_HI + 1);
+	builtin_SHA1((char *)d1, (const char *)msg, (int)len);
 	memset(pad, 0, sizeof(pad));
 	for (i = 0; i < len; i++) pad[i] = msg[i];
 	pad[len] = 0x80;
 	total = ((len + 8) / 64 + 1) * 64;
 	for (i = 0; i < 8; i++) pad[total - 1 - i] = (unsigned char)(bits >> (8 * i));
-	for (i = 0; i < total; i += 64) SHA1Transform(H, pad + i);
-	for (i = 0; i < 20; i++) out[i] = (unsigned char)(H[i / 4] >> (8 * (3 - i % 4)));
-}
-void harness_driver(void)
-{
-	unsigned char msg[VP_LEN_HI + 1], d1[20], d2[20]; size_t len, k;
-	vp_bytes(msg, VP_LEN_HI + 1);
-	for (len = VP_LEN_LO; len <= VP_LEN_HI; len++) {
-		builtin_SHA1((char *)d1, (const char *)msg, (int)len);
-		ref_sha1_driver(msg, len, d2);
-		for (k = 0; k < 20; k++) VP_ASSERT(d1[k] == d2[k], "C32: builtin_SHA1 padding/length/output differs from FIPS 180-4");
-	}
+	VP_ASSERT((size_t)vp_nblk * 64 == total, "C32: builtin_SHA1 hashed a different number of blocks than FIPS 180-4 padding produces");
+	for (i = 0; i < 5; i++) VP_ASSERT(vp_iv_seen[i] == IV[i], "C32: builtin_SHA1 does not start from the FIPS 180-4 initial hash value");
+	VP_ASSERT(!vp_state_moved, "C32: builtin_SHA1 does not chain the compression function on one state");
+	i = (size_t)vp_range(0, 191);
+	if (i < total) VP_ASSERT(vp_blk[i / 64][i % 64] == pad[i], "C32: builtin_SHA1 block bytes differ from the FIPS 180-4 padded message");
+	i = (size_t)vp_range(0, 19);
+	VP_ASSERT(d1[i] == (unsigned char)(vp_last_state[i / 4] >> (8 * (3 - i % 4))), "C32: digest is not the big-endian final hash value");
 	VP_WITNESS("driver");
 }
